@@ -211,7 +211,31 @@ def accountant_cases(p):
             same_eps = b.get_epsilon(DELTA) == c.get_epsilon(DELTA)
         except Exception:
             same_eps = True
-        res.append({'mech': mech, 'isolated': iso, 'variants': variants, 'same_eps': bool(same_eps)})
+        # a loaded state is a COPY: stepping the accountant that loaded it must not change the dict it was loaded from (nor a sibling that loaded it too)
+        snap = a.state_dict()
+        frozen = copy.deepcopy(snap['history'])
+        b1, b2 = create_accountant(mech), create_accountant(mech)
+        b1.load_state_dict(snap)
+        b2.load_state_dict(snap)
+        try:
+            for _ in range(2):
+                b1.step(noise_multiplier=frozen[-1][0], sample_rate=frozen[-1][1])
+        except Exception:
+            pass
+        load_isolated = list(snap['history']) == list(frozen) and list(b2.history) == list(frozen)
+        # a refused step (GDP: another sigma) leaves the ledger as it was
+        refusal_keeps = True
+        if mech == 'gdp':
+            g = create_accountant('gdp')
+            for _ in range(4):
+                g.step(noise_multiplier=1.1, sample_rate=0.01)
+            before = copy.deepcopy(g.history)
+            try:
+                g.step(noise_multiplier=0.5, sample_rate=0.01)
+                refusal_keeps = False           # GDP is documented to refuse a second (sigma, q)
+            except ValueError:
+                refusal_keeps = list(g.history) == list(before)
+        res.append({'mech': mech, 'isolated': iso, 'variants': variants, 'same_eps': bool(same_eps), 'load_isolated': bool(load_isolated), 'refusal_keeps': bool(refusal_keeps)})
     return res
 
 
